@@ -352,6 +352,187 @@ Proof.
 Qed.
 
 
+(* ---- sorted sets: pytezos' sorted Python lists vs the reference ---- *)
+Lemma sorted_transfer t l : Forall (fun y => typed y t) l -> comparable t = true ->
+  py_strict_sorted l = v_strict_sorted (map erase l).
+Proof.
+  intros Hl Hc. induction Hl as [|x l Hx Hl IH]; [reflexivity|].
+  destruct l as [|y r]; [reflexivity|]. inversion Hl as [|? ? Hy Hr]; subst.
+  cbn [py_strict_sorted v_strict_sorted map]. cbn [map] in IH.
+  destruct (compare_agree x t y Hx Hy Hc) as (c & E & _ & L). rewrite E, L. destruct c; simpl; auto.
+Qed.
+
+Lemma cmp_defined_typed t x l : typed x t -> Forall (fun y => typed y t) l -> comparable t = true ->
+  cmp_defined (erase x) (map erase l).
+Proof.
+  intros Hx Hl Hc. unfold cmp_defined. induction Hl as [|y l Hy Hl IH]; simpl; constructor; [|exact IH].
+  destruct (compare_agree x t y Hx Hy Hc) as (c & E & _). rewrite E. discriminate.
+Qed.
+
+Lemma no_eq_existsb t x l : typed x t -> Forall (fun y => typed y t) l -> comparable t = true ->
+  Forall (fun z => v_compare (erase x) z = Some Lt) (map erase l) -> existsb (fun y => py_eq x y) l = false.
+Proof.
+  intros Hx Hl Hc F. induction Hl as [|y l Hy Hl IH]; [reflexivity|]. simpl in F |- *. inversion F as [|? ? Fy Fr]; subst.
+  destruct (compare_agree x t y Hx Hy Hc) as (c & E & Q & _). rewrite Fy in E. injection E as <-. rewrite Q. simpl. auto.
+Qed.
+
+Lemma set_add_agree t x : typed x t -> comparable t = true -> forall l, Forall (fun y => typed y t) l ->
+  v_strict_sorted (map erase l) = true ->
+  v_set_add (erase x) (map erase l) = Some (map erase (py_set_add x l)).
+Proof.
+  intros Hx Hc. induction l as [|y r IH]; intros Hl S; [reflexivity|].
+  inversion Hl as [|? ? Hy Hr]; subst. cbn [map] in S. apply v_sorted_iff in S as [Sr Fy].
+  destruct (compare_agree x t y Hx Hy Hc) as (c & E & Q & L).
+  unfold py_set_add, py_set_contains in *. cbn [map v_set_add existsb py_insert]. rewrite E, Q, L. destruct c; simpl.
+  - reflexivity.
+  - rewrite (no_eq_existsb t x r Hx Hr Hc); [reflexivity|]. eapply v_no_eq_after; eassumption.
+  - rewrite (IH Hr Sr). destruct (existsb (fun y0 => py_eq x y0) r); reflexivity.
+Qed.
+
+Lemma filter_no_eq t x l : typed x t -> Forall (fun y => typed y t) l -> comparable t = true ->
+  Forall (fun z => v_compare (erase x) z = Some Lt) (map erase l) -> filter (fun y => negb (py_eq y x)) l = l.
+Proof.
+  intros Hx Hl Hc F. induction Hl as [|y l Hy Hl IH]; [reflexivity|]. simpl in F |- *. inversion F as [|? ? Fy Fr]; subst.
+  destruct (compare_agree x t y Hx Hy Hc) as (c & E & Q & _). rewrite Fy in E. injection E as <-.
+  rewrite (py_eq_sym y x), Q. simpl. rewrite (IH Fr). reflexivity.
+Qed.
+
+Lemma set_remove_agree t x : typed x t -> comparable t = true -> forall l, Forall (fun y => typed y t) l ->
+  v_strict_sorted (map erase l) = true ->
+  v_set_remove (erase x) (map erase l) = Some (map erase (py_set_remove x l)).
+Proof.
+  intros Hx Hc. induction l as [|y r IH]; intros Hl S; [reflexivity|].
+  inversion Hl as [|? ? Hy Hr]; subst. cbn [map] in S. apply v_sorted_iff in S as [Sr Fy].
+  destruct (compare_agree x t y Hx Hy Hc) as (c & E & Q & L).
+  unfold py_set_remove, py_set_contains in *. cbn [map v_set_remove existsb filter]. rewrite E, Q, (py_eq_sym y x), Q.
+  destruct c; simpl.
+  - apply v_compare_eq in E. rewrite (filter_no_eq t x r Hx Hr Hc); [reflexivity|]. rewrite E. exact Fy.
+  - rewrite (no_eq_existsb t x r Hx Hr Hc) by (eapply v_no_eq_after; eassumption).
+    rewrite v_set_remove_id by (eapply v_no_eq_after; eassumption). reflexivity.
+  - rewrite (IH Hr Sr). destruct (existsb (fun y0 => py_eq x y0) r); reflexivity.
+Qed.
+
+Lemma py_insert_Forall (P : pval -> Prop) x l : P x -> Forall P l -> Forall P (py_insert x l).
+Proof.
+  intros Px F. induction F as [|y l Py F IH]; simpl; [constructor; [exact Px | constructor]|].
+  destruct (py_lt x y); constructor; auto.
+Qed.
+
+Lemma filter_Forall {A} (P : A -> Prop) f (l : list A) : Forall P l -> Forall P (filter f l).
+Proof. induction 1 as [|y l Py F IH]; simpl; [constructor|]. destruct (f y); [constructor|]; auto. Qed.
+
+(* UPDATE on a set: SetType.add / remove keep the list typed and sorted and agree with the reference *)
+Lemma set_update_agree t x (b : bool) l : typed x t -> comparable t = true -> typed (PSet t l) (TSet t) ->
+  let l' := if b then py_set_add x l else py_set_remove x l in
+  (if b then v_set_add (erase x) (map erase l) else v_set_remove (erase x) (map erase l)) = Some (map erase l') /\
+  typed (PSet t l') (TSet t).
+Proof.
+  intros Hx Hc Hs. pose proof Hs as Hs'. apply typed_set_inv in Hs' as (l0 & Q & Hl). injection Q as <-.
+  unfold typed in Hs. simpl in Hs. apply andb_prop in Hs as [_ Sp].
+  rewrite (sorted_transfer t l Hl Hc) in Sp.
+  pose proof (cmp_defined_typed t x l Hx Hl Hc) as D.
+  assert (G : forall l', Forall (fun y => typed y t) l' -> v_strict_sorted (map erase l') = true -> typed (PSet t l') (TSet t)).
+  { intros l' Hl' S'. unfold typed. simpl. rewrite ty_eqb_refl. simpl. rewrite (sorted_transfer t l' Hl' Hc), S'.
+    rewrite andb_true_r. apply forallb_forall. intros z Hz. rewrite Forall_forall in Hl'. apply Hl'. exact Hz. }
+  destruct b; cbv zeta.
+  - pose proof (set_add_agree t x Hx Hc l Hl Sp) as A. split; [exact A|].
+    destruct (v_set_add_sorted (erase x) (map erase l) Sp D) as (l1 & E1 & S1). rewrite A in E1. injection E1 as <-.
+    apply G; [|exact S1]. unfold py_set_add. destruct (py_set_contains x l); [exact Hl | apply py_insert_Forall; assumption].
+  - pose proof (set_remove_agree t x Hx Hc l Hl Sp) as A. split; [exact A|].
+    destruct (v_set_remove_sorted (erase x) (map erase l) Sp D) as (l1 & E1 & S1). rewrite A in E1. injection E1 as <-.
+    apply G; [|exact S1]. unfold py_set_remove. destruct (py_set_contains x l); [apply filter_Forall; exact Hl | exact Hl].
+Qed.
+
+(* ---- sorted maps ---- *)
+Lemma entries_facts kt vt l : Forall (entry_typed kt vt) l ->
+  map erase (map py_key l) = map v_key (map erase l) /\ Forall (fun y => typed y kt) (map py_key l) /\ Forall is_entry (map erase l).
+Proof.
+  induction 1 as [|y l (k & v & -> & Hk & Hv) Hl (I1 & I2 & I3)]; simpl; [auto|].
+  rewrite I1. repeat split; auto. constructor; [eexists; eexists; reflexivity | exact I3].
+Qed.
+
+Lemma map_no_eq_facts kt vt k v l : typed k kt -> comparable kt = true -> Forall (entry_typed kt vt) l ->
+  Forall (fun z => v_compare (erase k) z = Some Lt) (map v_key (map erase l)) ->
+  py_map_get k l = None /\
+  map (fun y => if negb (py_eq (py_key y) k) then y else PPair (py_key y) v) l = l /\
+  filter (fun y => negb (py_eq (py_key y) k)) l = l.
+Proof.
+  intros Hk Hc Hl F. induction Hl as [|y l (k' & v' & -> & Hk' & Hv') Hl IH]; [auto|].
+  simpl in F. inversion F as [|? ? Fy Fr]; subst. destruct (IH Fr) as (I1 & I2 & I3).
+  destruct (compare_agree k kt k' Hk Hk' Hc) as (c & E & Q & _). rewrite Fy in E. injection E as <-.
+  simpl. rewrite (py_eq_sym k' k), Q. simpl. rewrite I1, I2, I3. auto.
+Qed.
+
+Lemma map_set_agree kt vt k v : typed k kt -> comparable kt = true -> forall l, Forall (entry_typed kt vt) l ->
+  v_strict_sorted (map v_key (map erase l)) = true ->
+  v_map_set (erase k) (erase v) (map erase l) = Some (map erase (py_map_update k (Some v) l)).
+Proof.
+  intros Hk Hc. induction l as [|y r IH]; intros Hl S; [reflexivity|].
+  inversion Hl as [|? ? (k' & v' & -> & Hk' & Hv') Hr]; subst. cbn [map erase v_key] in S. apply v_sorted_iff in S as [Sr Fy].
+  destruct (compare_agree k kt k' Hk Hk' Hc) as (c & E & Q & L).
+  unfold py_map_update in *. cbn [map erase v_map_set py_map_get py_key py_insert_entry]. rewrite E, (py_eq_sym k' k), Q, L.
+  destruct c; simpl.
+  - apply v_compare_eq in E. destruct (map_no_eq_facts kt vt k v r Hk Hc Hr) as (_ & I2 & _); [rewrite E; exact Fy|].
+    rewrite I2, E. reflexivity.
+  - destruct (map_no_eq_facts kt vt k v r Hk Hc Hr) as (I1 & _ & _); [eapply v_no_eq_after; eassumption|]. rewrite I1. reflexivity.
+  - rewrite (IH Hr Sr). destruct (py_map_get k r); reflexivity.
+Qed.
+
+Lemma map_remove_agree kt vt k : typed k kt -> comparable kt = true -> forall l, Forall (entry_typed kt vt) l ->
+  v_strict_sorted (map v_key (map erase l)) = true ->
+  v_map_remove (erase k) (map erase l) = Some (map erase (py_map_update k None l)).
+Proof.
+  intros Hk Hc. induction l as [|y r IH]; intros Hl S; [reflexivity|].
+  inversion Hl as [|? ? (k' & v' & -> & Hk' & Hv') Hr]; subst. cbn [map erase v_key] in S. apply v_sorted_iff in S as [Sr Fy].
+  destruct (compare_agree k kt k' Hk Hk' Hc) as (c & E & Q & L). destruct (entries_facts kt vt r Hr) as (_ & _ & En).
+  unfold py_map_update in *. cbn [map erase v_map_remove py_map_get py_key]. rewrite E, (py_eq_sym k' k), Q.
+  destruct c; simpl.
+  - apply v_compare_eq in E. destruct (map_no_eq_facts kt vt k k r Hk Hc Hr) as (_ & _ & I3); [rewrite E; exact Fy|].
+    rewrite (py_eq_sym k' k), Q. simpl. rewrite I3. reflexivity.
+  - destruct (map_no_eq_facts kt vt k k r Hk Hc Hr) as (I1 & _ & _); [eapply v_no_eq_after; eassumption|]. rewrite I1.
+    rewrite v_map_remove_id; [reflexivity | exact En | eapply v_no_eq_after; eassumption].
+  - rewrite (IH Hr Sr). destruct (py_map_get k r); simpl; [rewrite (py_eq_sym k' k), Q|]; reflexivity.
+Qed.
+
+Lemma py_map_update_entries kt vt k ov l : typed k kt -> (forall v, ov = Some v -> typed v vt) ->
+  Forall (entry_typed kt vt) l -> Forall (entry_typed kt vt) (py_map_update k ov l).
+Proof.
+  intros Hk Hv Hl. unfold py_map_update. destruct (py_map_get k l), ov as [v|]; auto.
+  - apply Forall_forall. intros x Hx. apply in_map_iff in Hx as (y & <- & Hy). rewrite Forall_forall in Hl.
+    destruct (Hl y Hy) as (k' & v' & -> & Hk' & Hv'). simpl. destruct (negb (py_eq k' k)); [exists k', v'; auto|].
+    exists k', v. repeat split; auto.
+  - apply filter_Forall. exact Hl.
+  - specialize (Hv v eq_refl). clear - Hk Hv Hl. induction Hl as [|y l Hy Hl IH]; simpl.
+    + constructor; [exists k, v; auto | constructor].
+    + destruct (py_lt k (py_key y)); constructor; auto. exists k, v; auto.
+Qed.
+
+(* UPDATE / GET_AND_UPDATE on a map: MapType.update keeps the entries typed and sorted and agrees with the reference *)
+Lemma map_update_agree kt vt k ov l : typed k kt -> comparable kt = true -> typed ov (TOption vt) -> typed (PMap kt vt l) (TMap kt vt) ->
+  let o := match ov with PSome v => Some v | _ => None end in
+  v_map_update (erase k) (erase ov) (map erase l) = Some (map erase (py_map_update k o l)) /\
+  typed (PMap kt vt (py_map_update k o l)) (TMap kt vt).
+Proof.
+  intros Hk Hc Ho Hm. pose proof Hm as Hm'. apply typed_map_inv in Hm' as (l0 & Q & Hl). injection Q as <-.
+  unfold typed in Hm. simpl in Hm. apply andb_prop in Hm as [_ Sp].
+  destruct (entries_facts kt vt l Hl) as (Ek & Tk & En).
+  rewrite (sorted_transfer kt _ Tk Hc), Ek in Sp.
+  assert (D : cmp_defined (erase k) (map v_key (map erase l))) by (rewrite <- Ek; apply (cmp_defined_typed kt); assumption).
+  assert (G : forall l', Forall (entry_typed kt vt) l' -> v_strict_sorted (map v_key (map erase l')) = true ->
+              typed (PMap kt vt l') (TMap kt vt)).
+  { intros l' Hl' S'. destruct (entries_facts kt vt l' Hl') as (Ek' & Tk' & _).
+    unfold typed. simpl. rewrite !ty_eqb_refl. simpl. rewrite (sorted_transfer kt _ Tk' Hc), Ek', S'. rewrite andb_true_r.
+    apply forallb_forall. intros z Hz. rewrite Forall_forall in Hl'. destruct (Hl' z Hz) as (k' & v' & -> & H1 & H2).
+    unfold typed in H1, H2. rewrite H1, H2. reflexivity. }
+  apply typed_option_inv in Ho as [-> | (v & -> & Hv)]; cbv zeta; cbn [erase v_map_update].
+  - pose proof (map_remove_agree kt vt k Hk Hc l Hl Sp) as A. split; [exact A|].
+    destruct (v_map_remove_sorted (erase k) (map erase l) Sp D En) as (l1 & E1 & S1 & _). rewrite A in E1. injection E1 as <-.
+    apply G; [|exact S1]. apply py_map_update_entries; auto. discriminate.
+  - pose proof (map_set_agree kt vt k v Hk Hc l Hl Sp) as A. split; [exact A|].
+    destruct (v_map_set_sorted (erase k) (erase v) (map erase l) Sp D En) as (l1 & E1 & S1 & _). rewrite A in E1. injection E1 as <-.
+    apply G; [|exact S1]. apply py_map_update_entries; auto. intros v0 Q. injection Q as <-. exact Hv.
+Qed.
+
 (* value.to_literal() / the reference's literal of a value: the same well-typed literal (APPLY) *)
 Lemma data_of_pval_ok v : forall t, typed v t -> has_literal t = true -> has_coll t = false ->
   exists d, data_of_pval v = Some d /\ data_of_value t (erase v) = Some d /\ data_has_type t d = true.
@@ -596,8 +777,36 @@ Proof.
     match goal with |- context [py_map_get ?x ?l] => destruct (py_map_get x l) as [v|] eqn:Eg end; simpl.
     + eexists; split; [reflexivity | split; [reflexivity | constructor; [apply (Hg _ _ Eg) | assumption]]].
     + eexists; split; [reflexivity | split; [reflexivity | constructor; [unfold typed; simpl; apply ty_eqb_refl | assumption]]].
-  - (* UPDATE *) discriminate Htc.
-  - (* GET_AND_UPDATE *) discriminate Htc.
+  - (* UPDATE *) tc_cases Htc; injection Htc as <-.
+    + match goal with H : (_ && _) = true |- _ => apply andb_prop in H as [Q1 Q2]; apply ty_eqb_eq in Q1; subst end. inv_f2.
+      match goal with H : typed _ TBool |- _ => apply typed_bool_inv in H as [bb ->] end.
+      match goal with H : typed _ (TSet _) |- _ => pose proof H as Hset; apply typed_set_inv in H as (l1 & -> & Hl1) end.
+      give_args. simpl.
+      match goal with Hx : typed ?x ?t, Hs' : typed (PSet ?t l1) _ |- _ =>
+        destruct (set_update_agree t x bb l1 Hx Q2 Hs') as [A T]; rewrite (typed_rt_type x t Hx), ty_eqb_refl end.
+      destruct bb; simpl in A |- *; rewrite A;
+        (eexists; split; [reflexivity | split; [reflexivity | constructor; [exact T | assumption]]]).
+    + match goal with H : (_ && _ && _) = true |- _ => apply andb_prop in H as [Q1 Q3]; apply andb_prop in Q1 as [Q1 Q2];
+        apply ty_eqb_eq in Q1; apply ty_eqb_eq in Q2; subst end. inv_f2.
+      match goal with H : typed _ (TMap _ _) |- _ => pose proof H as Hmap; apply typed_map_inv in H as (l1 & -> & Hl1) end.
+      match goal with Hx : typed ?x ?kt, Ho : typed ?ov (TOption ?vt), Hm : typed (PMap ?kt ?vt l1) _ |- _ =>
+        destruct (map_update_agree kt vt x ov l1 Hx Q3 Ho Hm) as [A T]; pose proof (typed_rt_type x kt Hx) as Rx;
+        apply typed_option_inv in Ho as [-> | (v0 & -> & Hv0)] end;
+      give_args; simpl in A |- *; rewrite A, Rx, ty_eqb_refl;
+        (eexists; split; [reflexivity | split; [reflexivity | constructor; [exact T | assumption]]]).
+  - (* GET_AND_UPDATE *) tc_cases Htc; injection Htc as <-.
+    match goal with H : (_ && _ && _) = true |- _ => apply andb_prop in H as [Q1 Q3]; apply andb_prop in Q1 as [Q1 Q2];
+      apply ty_eqb_eq in Q1; apply ty_eqb_eq in Q2; subst end. inv_f2.
+    match goal with H : typed _ (TMap _ _) |- _ => pose proof H as Hmap; apply typed_map_inv in H as (l1 & -> & Hl1) end.
+    match goal with Hx : typed ?x ?kt, Ho : typed ?ov (TOption ?vt), Hm : typed (PMap ?kt ?vt l1) _ |- _ =>
+      destruct (map_update_agree kt vt x ov l1 Hx Q3 Ho Hm) as [A T]; pose proof (typed_rt_type x kt Hx) as Rx;
+      pose proof (map_get_agree x l1 kt vt Hx Hl1 Q3) as Gt;
+      assert (Hg : typed (py_opt vt (py_map_get x l1)) (TOption vt));
+      [ clear - Hl1; induction Hl1 as [|y l (k' & v' & -> & _ & Hv) Hl IH]; simpl;
+        [unfold typed; simpl; apply ty_eqb_refl | destruct (py_eq k' x); [exact Hv | exact IH]] |];
+      apply typed_option_inv in Ho as [-> | (v0 & -> & Hv0)] end;
+    give_args; simpl in A |- *; rewrite A, Gt, Rx, ty_eqb_refl;
+      (eexists; split; [reflexivity | split; [simpl; destruct (py_map_get _ l1); reflexivity | constructor; [exact Hg | constructor; [exact T | assumption]]]]).
   - (* ADD *) unfold add_ty in Htc. tc_cases Htc; injection Htc as <-; inv_f2; inv_ty; give_args; simpl; unfold py_arith; simpl;
       try ((rewrite ?nat_from_ok by lia);
            solve [eexists; split; [reflexivity | split; [reflexivity | constructor; [try (apply typed_nat_intro; lia); reflexivity | assumption]]]]).
